@@ -2,8 +2,9 @@
 
 Decided statically: NULL-contradiction in the anchored files, lock regions of
 fork+insert and of the reaper, the kill gate, dead-flag pairing, status-record
-ownership.  Not decided: ordering of statuses, pid reuse races, routing
-multiplicities over schedules.
+ownership, order of the statuses of one child (queue insertion end against
+delivery end, R-C11g).  Not decided: pid reuse races, routing multiplicities
+over schedules.
 
 Formulation (see h11.py): nothing is anchored on the name of a static function,
 local, parameter or file-scope variable.  The roots of iv_wait.c (exported API,
@@ -113,6 +114,10 @@ def run(ctx):
                        'each handler call and touches the interest afterwards only behind it; unregister clears that marker when it '
                        'designates the interest (shared with C01)', floor=2)
     ctx.section(delivery)
+    ctx.rule('R-C11g', 'the statuses of one child reach the handler in the order they were reaped: every way a status record enters the '
+                       'pending queue of an interest puts it at the end opposite to the end the delivery takes records from (seen through '
+                       'every list the records are moved to on the way, order-preserving or reversing), never into the middle', floor=2)
+    ctx.section(status_order)
 
 
 # --------------------------------------------------------------------------
@@ -650,7 +655,14 @@ def delivery(ctx):
             c01.holders(proxy)
         except AnalysisBroken as ex:
             broken.append(str(ex))
-    wanted = lambda rid, inst: rid == 'R-C01a' and inst.split(':')[0] in names
+    # a root in which no abstract execution reaches a handler call is not a delivery context (a drain helper shared by
+    # delivery and purge, `drain(.., deliver = 0)` inlined into unregister): "used after the callback" is vacuous there
+    idle = set()
+    for v in h.views(prog):
+        cbs = [e for e in v.g.events() if v.is_wait_callback(e)]
+        if cbs and not any(v.reached(e) for e in cbs):
+            idle.add(v.root.name)
+    wanted = lambda rid, inst: rid == 'R-C01a' and inst.split(':')[0] in names and inst.split(':')[0] not in idle
     try:
         c01.stale(proxy)
     except AnalysisBroken as ex:
@@ -669,3 +681,58 @@ def delivery(ctx):
         raise AnalysisBroken('; '.join(broken))
     if n < 2:
         raise AnalysisBroken('wait delivery marker rules not found')
+
+
+# --------------------------------------------------------------------------
+# R-C11g
+# --------------------------------------------------------------------------
+
+def status_order(ctx):
+    """FIFO as a parity condition.  Every insertion of a status record into an interest's pending queue has an
+    orientation (+1: at the tail, the queue holds the oldest status first; -1: at the head).  Every designation of a
+    record that is handed to the handler needs an orientation of the queue (+1: the first element of the queue, or
+    of a list that received the queue's elements in order, or the last of a reversed copy; -1 the other way round).
+    The handler sees the statuses in the order they occurred iff all of these agree.  When they do not, the
+    constructs that deviate from the orientation most of the others have (on a tie: from append-at-tail /
+    take-from-head) fail."""
+    prog = ctx.prog
+    rid = 'R-C11g'
+    ins = h.queue_inserts(prog)
+    if not ins:
+        raise AnalysisBroken('no insertion of a status record into the pending queue of an interest found')
+    dels = h.deliveries(prog)
+    if not dels:
+        raise AnalysisBroken('delivery: no status record handed to a wait handler found')
+    orient = {'tail': 1, 'head': -1, 'middle': 0}
+    cost = {c: sum(1 for (_, _, end) in ins if orient[end] != c) + sum(1 for (_, _, need, _) in dels if need != c) for c in (1, -1)}
+    c = 1 if cost[1] <= cost[-1] else -1
+    takes = sorted({how for (_, _, _, how) in dels})
+    by_root = {}
+    for (v, e, end) in ins:
+        by_root.setdefault(h.role_name(prog, v), []).append((v, e, end))
+    for nm in sorted(by_root):
+        sites = by_root[nm]
+        bad = [(v, e, end) for (v, e, end) in sites if orient[end] != c]
+        v0, e0, end0 = (bad or sites)[0]
+        ends = sorted({'%s at %s' % (end, relpath(e['loc'])) for (_, e, end) in sites})
+        ctx.ob(rid, '%s:status-queued-behind-older-ones' % nm, not bad, loc=e0['loc'],
+               detail=('%s: the record becomes the %s element of the interest\'s queue, but the delivery %s: statuses of one child reaped '
+                       'in separate passes reach the handler out of order' %
+                       (describe(e0), {'head': 'first', 'tail': 'last', 'middle': 'second / last but one'}[end0], '; '.join(takes))) if bad else
+                      'every insertion into an interest\'s queue (%s) puts the record at the end the delivery reaches last (the delivery %s)'
+                      % ('; '.join(ends), '; '.join(takes)),
+               path=path_to(v0.g, e0) if bad else None, fn=v0.root.q)
+    by_root = {}
+    for (v, e, need, how) in dels:
+        by_root.setdefault(h.role_name(prog, v), []).append((v, e, need, how))
+    where = sorted({'%s at %s' % (end, relpath(e['loc'])) for (_, e, end) in ins})
+    for nm in sorted(by_root):
+        sites = by_root[nm]
+        bad = [x for x in sites if x[2] != c]
+        v0, e0, need0, how0 = (bad or sites)[0]
+        ctx.ob(rid, '%s:oldest-status-first' % nm, not bad, loc=e0['loc'],
+               detail=('the record handed to the handler: the delivery %s, while the queue is filled at its %s: the newest status is '
+                       'delivered first' % (how0, '; '.join(where))) if bad else
+                      'the record handed to the handler is the oldest one still queued (the delivery %s; queue filled: %s)'
+                      % ('; '.join(takes), '; '.join(where)),
+               path=path_to(v0.g, e0) if bad else None, fn=v0.root.q)
